@@ -497,6 +497,14 @@ func ruleMDGateIn(r *Run) {
 			w, _ := q.find()
 			r.check(w == nil, key+"/reserved-filter", g.update.Pos(), "reserved (non-whitelisted) headers never become metadata",
 				"a reserved, non-whitelisted header still reaches the metadata insert")
+			// what is withheld from the handler is an enumerated list of protocol keys: the reserved test answers
+			// true only under an equality of the key with a constant (a prefix or pattern test swallows custom
+			// headers nobody listed: grpc-trace-bin, grpc-tags-bin, …)
+			if callee := staticCallee(resv); callee != nil {
+				why := p.nonEnumeratedTrue(callee, 0)
+				r.check(why == "", key+"/reserved-enumerated", resv.Pos(), "the reserved test is a membership test in an enumerated set of constant keys",
+					fmt.Sprintf("the reserved-key test %s can answer true for keys outside an enumerated list (%s): custom headers matching it never reach the handler or the proxied backend", shortFunc(callee), why))
+			}
 		}
 		r.check(p.binTransform(g, "larking.io/larking.decodeBinHeader"), key+"/bin-decode", g.update.Pos(), "values of '-bin' keys pass through decodeBinHeader",
 			"values of '-bin' keys are not base64-decoded (or not under the '-bin' suffix test)")
@@ -551,6 +559,94 @@ func ruleMDGateIn(r *Run) {
 		r.check(found, shortFunc(fn)+"/incoming-metadata", fn.Pos(), "the handler context's metadata is built from r.Header by the incoming gate",
 			"the serve function does not build incoming metadata from r.Header: request headers never reach the handler")
 	}
+}
+
+// nonEnumeratedTrue: for a predicate f(key string) bool, describe a way it can answer true that is not under an
+// equality test of its parameter with a constant; "" if there is none.
+func (p *Program) nonEnumeratedTrue(fn *ssa.Function, depth int) string {
+	if fn == nil || len(fn.Blocks) == 0 || len(fn.Params) != 1 || depth > 3 {
+		return "cannot read " + shortFunc(fn)
+	}
+	par := fn.Params[0]
+	constEq := func(g guardFact) bool {
+		x, y, op, ok := g.cmp()
+		if !ok || op != token.EQL {
+			return false
+		}
+		if y == ssa.Value(par) {
+			x, y = y, x
+		}
+		if x != ssa.Value(par) {
+			return false
+		}
+		_, isC := constString(y)
+		return isC
+	}
+	why := ""
+	eachInstr(fn, func(in ssa.Instruction) {
+		rt, ok := in.(*ssa.Return)
+		if !ok || len(rt.Results) != 1 {
+			return
+		}
+		for _, l := range p.guardedLeaves(rt.Results[0]) {
+			if c, isC := l.v.(*ssa.Const); isC && c.Value != nil && c.Value.String() == "false" {
+				continue
+			}
+			okHere := false
+			for _, g := range p.expandFacts(l.facts) {
+				if constEq(g) {
+					okHere = true
+				}
+			}
+			if !okHere && p.guardedInEveryContext(rt.Block(), constEq) {
+				okHere = true
+			}
+			if okHere {
+				continue
+			}
+			// membership in a package-level constant table keyed by the parameter (var reserved = map[string]bool{…})
+			if t, idx := p.tableLoad(l.v); t != nil && idx == ssa.Value(par) {
+				continue
+			}
+			if ex, isEx := l.v.(*ssa.Extract); isEx {
+				if lk, isLk := ex.Tuple.(*ssa.Lookup); isLk && lk.Index == ssa.Value(par) {
+					if u, ok := lk.X.(*ssa.UnOp); ok && u.Op == token.MUL {
+						if g, ok := u.X.(*ssa.Global); ok && p.constTableOf(g) != nil {
+							continue
+						}
+					}
+				}
+			}
+			if _, isC := l.v.(*ssa.Const); !isC {
+				// a computed answer: fine when whatever makes it true is itself such an equality, or a nested
+				// predicate of the same kind
+				fs, never := p.factsWhen(l.v, true)
+				if never {
+					continue
+				}
+				for _, g := range fs {
+					if constEq(g) {
+						okHere = true
+					}
+					if cc, isCall := g.Cond.(*ssa.Call); isCall && g.True {
+						if callee := cc.Call.StaticCallee(); callee != nil && p.InModule(callee) && len(cc.Call.Args) == 1 && cc.Call.Args[0] == ssa.Value(par) && p.nonEnumeratedTrue(callee, depth+1) == "" {
+							okHere = true
+						}
+					}
+				}
+				if okHere {
+					continue
+				}
+				why = "its answer at " + p.Pos(rt.Pos()) + " is " + describeValue(l.v)
+				if n := sourceCall(l.v); n != "" {
+					why = "its answer at " + p.Pos(rt.Pos()) + " is the result of " + shortName(n)
+				}
+				continue
+			}
+			why = "it answers true at " + p.Pos(rt.Pos()) + " without comparing the key with a constant"
+		}
+	})
+	return why
 }
 
 func ruleMDReservedTable(r *Run) {
